@@ -6,6 +6,12 @@ tie:    correspondence R — real Sampler histories recorded by corerec.Recorder
         evaluated on the abstraction of every real state)
 search: the property's own observables evaluated on the real sampler at every operation boundary (corechecks.py)
 """
+import contextlib
+import io
+import warnings
+
+import numpy as np
+
 import common
 import corechecks
 
@@ -15,6 +21,83 @@ FILES = ['nautilus/sampler.py']
 INVARIANTS = ['aligned', 'nodup']
 
 
+# ---- evaluation-mode matrix with real process pools and user keyword arguments (the instrumented likelihood of the Core
+# histories lives in-process; here the likelihood is a pure module-level function, so that every returned row can be recomputed)
+def mm_like(x, scale=1.0, offset=0.0):
+    return float(-0.5 * scale * np.sum(((np.asarray(x) - 0.45) / 0.12) ** 2) + offset), float(np.asarray(x)[0] * 3.0 + offset)
+
+
+def mm_like_dict(p, scale=1.0, offset=0.0):
+    x = np.array([p['a'], p['b']])
+    return float(-0.5 * scale * np.sum(((x - 0.45) / 0.12) ** 2) + offset), float(p['a'] * 3.0 + offset)
+
+
+def mm_like_vec(x, scale=1.0, offset=0.0):
+    x = np.atleast_2d(x)
+    return (-0.5 * scale * np.sum(((x - 0.45) / 0.12) ** 2, axis=1) + offset), x[:, 0] * 3.0 + offset
+
+
+def mm_prior(u, stretch=1.0):
+    return np.asarray(u) * stretch
+
+
+def mode_matrix(seed):
+    """returns (cases, failures): every posterior row must carry exactly what the user's likelihood (with the user's keyword
+    arguments) returns for that row, whatever evaluates it"""
+    from nautilus import Sampler, Prior
+    from scipy.stats import uniform
+    fails, cases = [], []
+    kws = dict(scale=0.6, offset=-2.5)
+    matrix = [dict(name='pool=2,likelihood_kwargs', pool=2, like=mm_like, likelihood_kwargs=kws),
+              dict(name='pool=3,likelihood_kwargs,prior_kwargs', pool=3, like=mm_like, likelihood_kwargs=kws, prior_kwargs=dict(stretch=0.9)),
+              dict(name='serial,likelihood_kwargs', pool=None, like=mm_like, likelihood_kwargs=kws),
+              dict(name='vectorized,likelihood_kwargs', pool=None, like=mm_like_vec, likelihood_kwargs=kws, vectorized=True),
+              dict(name='pool=2,Prior-dict,likelihood_kwargs', pool=2, like=mm_like_dict, likelihood_kwargs=kws, prior='dict')]
+    for k, c in enumerate(matrix):
+        kw = dict(n_live=60, n_batch=12, n_networks=0, seed=seed + k, pool=c['pool'], vectorized=c.get('vectorized', False),
+                  likelihood_kwargs=c.get('likelihood_kwargs') or {}, prior_kwargs=c.get('prior_kwargs') or {})
+        if c.get('prior') == 'dict':
+            pr = Prior()
+            pr.add_parameter('a', dist=uniform(0.0, 0.9))
+            pr.add_parameter('b', dist=uniform(0.1, 0.8))
+            args = (pr, c['like'])
+        else:
+            args = (mm_prior, c['like'])
+            kw['n_dim'] = 2
+        s = None
+        try:
+            with warnings.catch_warnings(), contextlib.redirect_stdout(io.StringIO()):
+                warnings.simplefilter('ignore')
+                s = Sampler(*args, **kw)
+                s.run(n_eff=120, verbose=False)
+                pts, log_w, log_l, blobs = s.posterior(return_blobs=True)
+            lkw = c.get('likelihood_kwargs') or {}
+            bad = None
+            for j in range(len(pts)):
+                if c.get('prior') == 'dict':
+                    want = mm_like_dict({'a': pts[j][0], 'b': pts[j][1]}, **lkw)
+                else:
+                    want = mm_like(pts[j], **lkw)
+                if not (float(log_l[j]) == want[0] and float(blobs[j]) == want[1]):
+                    bad = (j, float(log_l[j]), float(blobs[j]), want)
+                    break
+            if bad is not None:
+                fails.append(('posterior-row-not-what-the-likelihood-returns:' + c['name'].split(',')[0].split('=')[0],
+                              'mode %s: row %d has log_l=%r blob=%r, the user likelihood (with its keyword arguments) returns %r for this point' % (
+                                  c['name'], bad[0], bad[1], bad[2], bad[3]), {'mode': c['name'], 'seed': seed + k, 'base_seed': seed}))
+            if len({np.ascontiguousarray(r).tobytes() for r in pts}) != len(pts):
+                fails.append(('posterior-row-duplicated', 'mode %s: a point appears twice in posterior()' % c['name'], {'mode': c['name'], 'seed': seed + k, 'base_seed': seed}))
+            cases.append({'mode': c['name'], 'rows': int(len(pts))})
+        except Exception as e:
+            fails.append(('evaluation-mode-raises:' + type(e).__name__, 'mode %s raised %s: %s' % (c['name'], type(e).__name__, str(e)[:120]),
+                          {'mode': c['name'], 'seed': seed + k, 'base_seed': seed}))
+        finally:
+            if s is not None and getattr(s, 'pool_l', None) is not None and hasattr(s.pool_l.pool, 'close'):
+                s.pool_l.pool.close()
+                s.pool_l.pool.join()
+    return cases, fails
+
+
 def run(chk):
     chk.extra['source_digest'] = common.source_digest(FILES)
     chk.prove(MODULE, THEOREMS)
@@ -22,6 +105,10 @@ def run(chk):
         chk.leanchecker([MODULE])
     results = corechecks.run_all(chk.tier, chk.seed)
     corechecks.report(chk, 'C03', results, INVARIANTS)
+    cases, mfails = mode_matrix(chk.seed)
+    for key, what, d in mfails:
+        chk.fail(key, what, {'input': dict(d, kind='mode-matrix')})
+    chk.extra['mode_matrix'] = cases
     chk.assumptions += ['the user likelihood is a pure function of its argument', 'pool.map returns results in input order (C11)']
     chk.trusted += ['harness/corerec.py (outside instrumentation + abstraction of the real state)', 'harness/corechecks.py']
 
@@ -29,6 +116,11 @@ def run(chk):
 def replay(doc):
     import json
     spec = doc['input']
+    if spec.get('kind') == 'mode-matrix':
+        cases, mfails = mode_matrix(int(spec['base_seed']))
+        for f in mfails:
+            print(f[0], '-', f[1])
+        return bool(mfails)
     r = corechecks._worker({'make': spec['make'], 'script': [tuple(x) if isinstance(x, list) else x for x in spec['script']]})
     if 'crash' in r:
         print('crash:', r['crash'])
